@@ -1062,7 +1062,13 @@ func (ex *Exec) step(fr *Frame, in ssa.Instruction) {
 		fr.locals[x] = ex.doCall(fr, x.Common(), x)
 	case *ssa.DebugRef:
 	case *ssa.MakeInterface:
-		fr.locals[x] = Iface{x.X.Type(), ex.get(fr, x.X)}
+		v := ex.get(fr, x.X)
+		// runtime.convTslice / convTstring box a value whose data pointer is nil as the zero value,
+		// whatever its length field says (the AML parser builds such slice headers by hand)
+		if sl, ok := v.(Slice); ok && sl.p.obj == nil && sl.p.off != nil && sl.p.off.IsConst() && sl.p.off.Val == 0 {
+			v = ex.zeroOf(x.X.Type())
+		}
+		fr.locals[x] = Iface{x.X.Type(), v}
 	case *ssa.ChangeInterface:
 		fr.locals[x] = ex.get(fr, x.X)
 	case *ssa.TypeAssert:
